@@ -171,6 +171,7 @@ class MarginRule(cssrule.CSSRule):
                 # TODO?
                 # , exception=xml.dom.InvalidModificationErr
             ),
+            Sequence(PreDef.S(toSeq=False), minmax=lambda: (0, None)),
             PreDef.char('OPEN', '{'),
             Sequence(
                 Choice(PreDef.unknownrule(toStore='@'), styletokens),
@@ -179,7 +180,11 @@ class MarginRule(cssrule.CSSRule):
             PreDef.char('CLOSE', '}', stopAndKeep=True),
         )
         # parse
-        ok, seq, store, unused = ProdParser().parse(cssText, 'MarginRule', prods)
+        # checkS: white space is part of the style tokens (calc(1px + 1px)
+        # needs it), so it must reach the productions instead of being dropped
+        ok, seq, store, unused = ProdParser().parse(
+            cssText, 'MarginRule', prods, checkS=True
+        )
 
         if ok:
             # TODO: use seq for serializing instead of fixed stuff?
